@@ -13,6 +13,20 @@ use std::sync::atomic::{AtomicBool, AtomicIsize, AtomicUsize, Ordering};
 
 pub const POISON_FRESH: u8 = 0xA5;
 pub const POISON_FREED: u8 = 0xDE;
+/// every tracked block is followed by a red zone filled with this byte; it is checked when the block
+/// is released and when the table is read, so a write past the end of a block is an event
+pub const REDZONE: usize = 64;
+pub const RED: u8 = 0xC7;
+/// number of red-zone violations seen since the last reset
+pub static OVERRUNS: AtomicUsize = AtomicUsize::new(0);
+
+fn real_layout(size: usize, align: usize) -> Layout {
+    unsafe { Layout::from_size_align_unchecked(size + REDZONE, align) }
+}
+unsafe fn red_ok(addr: usize, size: usize) -> bool {
+    let p = (addr + size) as *const u8;
+    (0..REDZONE).all(|i| p.add(i).read_volatile() == RED)
+}
 
 #[derive(Clone, Copy, Debug)]
 pub struct Rec {
@@ -64,9 +78,10 @@ unsafe impl GlobalAlloc for TrackAlloc {
             LOG.unlock();
             return std::ptr::null_mut();
         }
-        let p = System.alloc(layout);
+        let p = System.alloc(real_layout(layout.size(), layout.align()));
         if !p.is_null() {
             std::ptr::write_bytes(p, POISON_FRESH, layout.size());
+            std::ptr::write_bytes(p.add(layout.size()), RED, REDZONE);
             let n = TABLE.n.load(Ordering::Relaxed);
             if n < TCAP {
                 (*TABLE.recs.get())[n] =
@@ -112,6 +127,9 @@ unsafe impl GlobalAlloc for TrackAlloc {
                     0
                 };
                 recs[i].frees += 1;
+                if r.live && !red_ok(r.addr, r.size) {
+                    OVERRUNS.fetch_add(1, Ordering::Relaxed);
+                }
                 if r.live {
                     recs[i].live = false;
                     std::ptr::write_bytes(ptr, POISON_FREED, r.size);
@@ -130,6 +148,22 @@ unsafe impl GlobalAlloc for TrackAlloc {
             }
         }
     }
+}
+
+/// red-zone violations: blocks (live or quarantined) whose red zone is no longer intact, plus those
+/// noticed at release
+pub fn overruns() -> usize {
+    LOG.lock();
+    let n = TABLE.n.load(Ordering::Relaxed);
+    let recs = unsafe { &*TABLE.recs.get() };
+    let mut k = 0;
+    for r in recs.iter().take(n) {
+        if r.live && !unsafe { red_ok(r.addr, r.size) } {
+            k += 1;
+        }
+    }
+    LOG.unlock();
+    k + OVERRUNS.load(Ordering::Relaxed)
 }
 
 /// snapshot of the registered blocks
@@ -174,12 +208,13 @@ pub fn reset() {
     let recs = unsafe { &*TABLE.recs.get() };
     for r in recs.iter().take(n) {
         unsafe {
-            System.dealloc(r.addr as *mut u8, Layout::from_size_align_unchecked(r.size, r.align));
+            System.dealloc(r.addr as *mut u8, real_layout(r.size, r.align));
         }
     }
     TABLE.n.store(0, Ordering::Relaxed);
     LOG.unlock();
     FAIL_AT.store(0, Ordering::SeqCst);
+    OVERRUNS.store(0, Ordering::SeqCst);
 }
 
 pub fn track(on: bool) {
